@@ -69,6 +69,62 @@ Record Inv (s : state) : Prop := mkInv {
   i_late : forall w, late_early (wk s w) = true -> conn s = false
 }.
 
+(* ---- tactics ------------------------------------------------------------------------ *)
+Ltac unf := unfold after_read, turn_end, decide, handle_close, is_free, tokio in *.
+Ltac ifs := repeat match goal with |- context [if ?b then _ else _] => destruct b eqn:? end.
+Ltac rw := repeat match goal with
+  | H : io ?s = _ |- _ => rewrite H in *
+  | H : mret ?s = _ |- _ => rewrite H in *
+  | H : sd ?s = _ |- _ => rewrite H in *
+  end.
+Ltac hyps := repeat match goal with
+  | H : _ && _ = true |- _ => apply andb_true_iff in H; destruct H
+  | H : (_ =? _) = true |- _ => apply Nat.eqb_eq in H
+  | H : (_ =? _) = false |- _ => apply Nat.eqb_neq in H
+  | H : context [match ?x with _ => _ end] |- _ => destruct x eqn:?
+  end.
+Ltac act_contra := match goal with
+  | H : forall w : nat, active (wk ?s w) = false, E : wk ?s ?w0 = _ |- _ =>
+      let A := fresh in pose proof (H w0) as A; rewrite E in A; simpl in A; discriminate A end.
+Lemma len_plus1 : forall (A : Type) (l : list A), length l + 1 = 1 -> l = [].
+Proof. intros A [|x l] H; simpl in H; [reflexivity|lia]. Qed.
+Ltac lens := repeat match goal with
+  | H : context [length (_ ++ _)] |- _ => rewrite app_length in H; simpl in H
+  | |- context [length (_ ++ _)] => rewrite app_length; simpl
+  | H : length ?l + 1 = 1 |- _ => apply len_plus1 in H
+  end.
+(* drop implications whose premise is a false equation between constructors *)
+Ltac junk := repeat match goal with
+  | H : ?a = ?b -> _ |- _ => first [ (assert (a = b) as _ by reflexivity); specialize (H eq_refl)
+                                   | (assert (a <> b) as _ by discriminate); clear H ]
+  | H : ?a = ?a |- _ => clear H
+  end.
+Lemma app1_nonnil : forall (A : Type) (l : list A) x, l ++ [x] <> [].
+Proof. intros A [|y l] x; discriminate. Qed.
+Ltac len1 := match goal with H : length ?l + 1 = 1 |- _ => apply len_plus1 in H end.
+Ltac wgoal := match goal with |- context [if ?a =? ?b then _ else _] =>
+  destruct (Nat.eqb_spec a b); [subst|]; simpl; auto; try congruence end.
+Ltac base := try wgoal; try congruence; try (apply app1_nonnil);
+  try (match goal with H : _ ++ [_] = [] |- _ => exact (app1_nonnil _ _ _ H) end); try discriminate; try lia; try act_contra; try (len1; congruence); try (len1; tauto);
+  try solve [rw; simpl in *; intuition congruence].
+Ltac orbs := rewrite ?orb_true_r, ?orb_false_r in *.
+Ltac q0 := match goal with I : Inv ?s, H : queue ?s = S ?n |- _ =>
+  let Z := fresh in assert (Z : n = 0) by (pose proof (i_q1 s I); lia); subst n end.
+Ltac prep := unf; simpl in *; orbs; hyps; try q0; ifs; simpl in *; rw; simpl in *; lens.
+Ltac heavy := junk; intuition base.
+Ltac fin := prep; heavy.
+Ltac wsplit w' w := destruct (Nat.eqb_spec w' w); [subst w'|].
+Ltac qsplit := match goal with I : Inv ?s |- _ =>
+  let Q := fresh "Q" in
+  assert (Q : queue s = 0 \/ queue s = 1) by (pose proof (i_q1 s I); lia);
+  destruct Q as [Q|Q]; rewrite Q in * end.
+Ltac showall := idtac "=========== LEFT"; try match goal with H : ?T |- _ => idtac H ":" T; fail end;
+  match goal with |- ?G => idtac "|-" G end.
+Ltac leftover := showall; fail 1 "leftover".
+
+Ltac close3 cheap := prep; first [ solve [cheap] | solve [heavy] | solve [qsplit; heavy] | leftover ].
+Ltac close2 := prep; first [ solve [heavy] | solve [qsplit; heavy] | leftover ].
+
 (* ---- case analysis on a step ----------------------------------------------------------- *)
 Ltac destr_in H :=
   repeat match type of H with
@@ -77,7 +133,8 @@ Ltac destr_in H :=
 
 Ltac step_inv H :=
   destr_in H; try discriminate H;
-  match type of H with Some _ = Some _ => inversion H; subst; clear H end.
+  match type of H with Some _ = Some (?s', ?l) =>
+    let E1 := fresh in let E2 := fresh "E" in injection H as E1 E2; subst s'; subst l end.
 
 Ltac io_cases H := unfold step_io in H; step_inv H.
 Ltac wk_cases H := unfold step_wk in H; step_inv H.
